@@ -904,6 +904,10 @@ class Engine:
             return [(Raise(Exc("KeyError", repr(i))), st)]
         if c is None:
             return [(Raise(Exc("TypeError", "'NoneType' object is not subscriptable")), st)]
+        if isinstance(c, Opq) and c.cls not in ("float", "complex") and isinstance(i, int) and not isinstance(i, bool):
+            # element of an opaque sequence (e.g. `ast.parse(..).body[0]`): a pure function of the object and the index
+            self.assumed.add("subscripts of opaque objects are pure functions of the object and the (concrete) index")
+            return [(Opq(z3.Function("item_%s" % str(i).replace("-", "m"), Obj, Obj)(c.t), None), st)]
         raise Unsupported("subscript of %r" % (c,))
 
     # ------------------------------------------------------------------ attribute access
@@ -948,6 +952,12 @@ class Engine:
         if isinstance(v, Opq):
             if v.cls in ("float", "complex"):
                 raise Unsupported("attribute of abstract float")
+            ov = st.ghost.get("__opq_attrs") or {}
+            if any(k[0] == name for k in ov):
+                key = (name, v.t.sexpr())
+                if key in ov:
+                    return [(ov[key], st)]
+                raise Unsupported("read of attribute %r of an opaque object after a write to that attribute of a possibly aliased one" % name)
             f = z3.Function("attr_" + name, Obj, Obj)
             self.assumed.add("attribute reads on opaque objects are pure functions of the object")
             return [(Opq(f(v.t), None), st)]
@@ -1128,9 +1138,20 @@ class Engine:
                         raise Unsupported("break/continue escaping a function")
         finally:
             self.frames.pop()
-        for _, s in res:
-            s.scopes.pop(sid, None)
+        for v, s in res:
+            if not self._closes_over(v, sid):  # a returned closure (rpartial's lambda) keeps its defining scope alive
+                s.scopes.pop(sid, None)
         return res
+
+    @staticmethod
+    def _closes_over(v, sid):
+        if isinstance(v, Fn):
+            return sid in v.scopes
+        if isinstance(v, tuple):
+            return any(Engine._closes_over(x, sid) for x in v)
+        if isinstance(v, Partial):
+            return Engine._closes_over(v.f, sid) or any(Engine._closes_over(x, sid) for x in v.args)
+        return False
 
     def make_fn_from_def(self, node, st, glob=None, scopes=None):
         """evaluate defaults at definition time (constants only)"""
@@ -1369,6 +1390,15 @@ class Engine:
             def after_o(o, s):
                 if isinstance(o, Ref) and isinstance(s.heap[o.oid], HObj):
                     s.heap[o.oid].attrs[tgt.attr] = v
+                    return [("ok", None, s)]
+                if isinstance(o, Opq) and o.cls not in ("float", "complex"):
+                    # a write to an attribute of an opaque object: logged, and remembered for later reads through the SAME term; a later read
+                    # of that attribute through any other opaque term could be an alias and leaves the subset (see getattr)
+                    ov = dict(s.ghost.get("__opq_attrs") or {})
+                    ov[(tgt.attr, o.t.sexpr())] = v
+                    s.ghost["__opq_attrs"] = ov
+                    s.log.append({"callee": "<setattr>", "args": [o, tgt.attr, v], "kwargs": {}, "result": None, "effect": False})
+                    self.assumed.add("attribute writes on opaque objects: visible to later reads through the same term only (other terms: undecided)")
                     return [("ok", None, s)]
                 raise Unsupported("attribute store on %r" % (o,))
 
